@@ -88,24 +88,24 @@ func init() {
 			}
 			return out
 		},
-		"strings.SplitN":    mSplitN,
+		"strings.SplitN": mSplitN,
 		"strings.Split": func(e *Engine, a []Value) Value {
 			return mSplitN(e, []Value{a[0], a[1], mkInt(64, ^uint64(0))})
 		},
 
-		"(*sync.Pool).Get":       mPoolGet,
-		"(*sync.Pool).Put":       mPoolPut,
-		"(*sync.RWMutex).Lock":   func(e *Engine, a []Value) Value { e.ls.held[a[0].(*Value)] = "W"; return nil },
-		"(*sync.RWMutex).Unlock": func(e *Engine, a []Value) Value { delete(e.ls.held, a[0].(*Value)); return nil },
-		"(*sync.RWMutex).RLock":  func(e *Engine, a []Value) Value { e.ls.held[a[0].(*Value)] = "R"; return nil },
+		"(*sync.Pool).Get":        mPoolGet,
+		"(*sync.Pool).Put":        mPoolPut,
+		"(*sync.RWMutex).Lock":    func(e *Engine, a []Value) Value { e.ls.held[a[0].(*Value)] = "W"; return nil },
+		"(*sync.RWMutex).Unlock":  func(e *Engine, a []Value) Value { delete(e.ls.held, a[0].(*Value)); return nil },
+		"(*sync.RWMutex).RLock":   func(e *Engine, a []Value) Value { e.ls.held[a[0].(*Value)] = "R"; return nil },
 		"(*sync.RWMutex).RUnlock": func(e *Engine, a []Value) Value { delete(e.ls.held, a[0].(*Value)); return nil },
-		"(*sync.Mutex).Lock":     func(e *Engine, a []Value) Value { e.ls.held[a[0].(*Value)] = "W"; return nil },
-		"(*sync.Mutex).Unlock":   func(e *Engine, a []Value) Value { delete(e.ls.held, a[0].(*Value)); return nil },
+		"(*sync.Mutex).Lock":      func(e *Engine, a []Value) Value { e.ls.held[a[0].(*Value)] = "W"; return nil },
+		"(*sync.Mutex).Unlock":    func(e *Engine, a []Value) Value { delete(e.ls.held, a[0].(*Value)); return nil },
 
 		"encoding/gob.Register": mNop,
 		"time.Now": func(e *Engine, a []Value) Value {
 			e.clock++
-			return Struct{mkInt(64, 0), mkInt(64, uint64(63_800_000_000+e.clock)), (*Value)(nil)}
+			return Struct{mkInt(64, 0), mkInt(64, uint64(63_845_000_000+e.clock)), (*Value)(nil)}
 		},
 		"internal/abi.NoEscape": func(e *Engine, a []Value) Value { return a[0] },
 		"internal/bytealg.MakeNoZero": func(e *Engine, a []Value) Value {
@@ -144,6 +144,32 @@ func init() {
 		"errors.As":   mErrorsAs,
 		"fmt.Errorf":  mErrorf,
 		"fmt.Sprintf": func(e *Engine, a []Value) Value { return Str{S: mFormat(e, a)} },
+		"fmt.Sprint": func(e *Engine, a []Value) Value {
+			// operands: concrete values are formatted natively; a symbolic string operand is spliced in
+			out := Str{}
+			s := a[0].(Slice)
+			prevString := true
+			for i := 0; i < s.Len; i++ {
+				x := (*s.A)[s.Off+i]
+				if it, ok := x.(Iface); ok {
+					if sv, ok := it.V.(Str); ok {
+						out = strConcat(out, sv)
+						prevString = true
+						continue
+					}
+				}
+				n, ok := e.toNative(x)
+				if !ok {
+					panic(unsupported("fmt.Sprint of a symbolic non-string operand"))
+				}
+				if i > 0 && !prevString {
+					out = strConcat(out, Str{S: " "})
+				}
+				out = strConcat(out, Str{S: fmt.Sprint(n)})
+				prevString = false
+			}
+			return out
+		},
 
 		twigPkg + "symObserve": func(e *Engine, a []Value) Value {
 			if e.vector != nil {
